@@ -358,12 +358,25 @@ P_manage_processes(s, f) ==
   LET fr == s.fr[f] i == fr.w wr == s.ws[i] IN
   CASE fr.pc = "0" -> IF Stopped(s, i) THEN Ret(s, f, 1) ELSE Goto(SetL(s, f, PidSeq(wr)), f, "1")
     [] fr.pc = "1" ->      \* remove dead or zombie processes first
-         IF fr.l = <<>> THEN Goto(DropKids(s, f), f, "3")
+         IF fr.l = <<>> THEN Goto(DropKids(s, f), f, IF wr.mage > 0 THEN "2" ELSE "3")
          ELSE LET p == Head(fr.l) st == KStatus(s, p) s1 == SetL(DropKids(s, f), f, Tail(fr.l)) IN
               IF st = "run" THEN Emit(s1, Line("status", "", p, 0, st, ""))
               ELSE Emit(Goto(SetC(s1, f, p), f, "1r"), Line("status", "", p, 0, st, ""))
     [] fr.pc = "1r" -> IF Dev_PruneWithoutReap THEN Goto(PrPop(s, i, fr.c), f, "1")     \* D4: dropped, not reaped
                        ELSE Call(s, f, "1", "reap_process", i, fr.c, -1, 0)
+    \* remove_expired_processes(): age() > max_age with a clock whose later reading is always larger: on the model's
+    \* grid a worker is expired from the instant its age REACHES max_age.  All expired workers are killed side by side,
+    \* then those the kill really took care of are reaped
+    [] fr.pc = "2" -> LET ex == SelectSeq(PidSeq(wr), LAMBDA p : s.now - s.k[p].born >= wr.mage) IN
+                      Goto(SetM(SetL(s, f, ex), f, ex), f, "2a")
+    [] fr.pc = "2a" -> IF fr.m = <<>> THEN Await(s, f, "2b")
+                       ELSE Call(SetM(s, f, Tail(fr.m)), f, "2a", "kill_process", i, Head(fr.m), wr.ssig, wr.G)
+    [] fr.pc = "2b" ->
+         LET rets == KidRets(s, f)
+             gone == { fr.l[j] : j \in { j \in 1..Len(fr.l) : rets[j] = 1 } } IN
+         Goto(SetM(DropKids(s, f), f, SelectSeq(fr.l, LAMBDA p : p \in gone)), f, "2c")
+    [] fr.pc = "2c" -> IF fr.m = <<>> THEN Goto(DropKids(s, f), f, "3")
+                       ELSE Call(SetM(DropKids(s, f), f, Tail(fr.m)), f, "2c", "reap_process", i, Head(fr.m), -1, 0)
     [] fr.pc = "3" ->      \* adding fresh processes
          IF Len(wr.pr) < wr.np /\ wr.st # "stopping"
          THEN IF wr.resp THEN Call(s, f, "3a", "spawn_processes", i, 0, 0, 0)
@@ -409,7 +422,7 @@ P_spawn_process(s, f, ob) ==
                    Line("spawnfail", "", 0, 0, Head(s.faults), ""))
          ELSE LET p == Len(s.k) + 1
                   s1 == [s EXCEPT !.k = Append(@, [st |-> "run", ws |-> -1, par |-> 0, obeys |-> ob, dying |-> 0,
-                                                   owner |-> i, stp |-> FALSE, rc |-> FALSE, rcv |-> 0]),
+                                                   owner |-> i, stp |-> FALSE, rc |-> FALSE, rcv |-> 0, born |-> s.now]),
                                   !.faults = IF @ = <<>> THEN @ ELSE Tail(@),
                                   !.fr[f].p = p, !.fr[f].a = NextWid(s, i)]
               IN Emit(Goto(s1, f, "2p"), Line("spawn", WN(s, i), p, IF ob THEN 1 ELSE 0, "", WL(s, i)))
@@ -765,7 +778,8 @@ OpName(q, one) ==
     [] OTHER -> q.cmd
 GotoZ(s, f, v) == Goto(s, f, "z")
 \* the options of a `set` request as the model sees them: k \in {"np", "G" (polls), "W" (ticks), "ssig", "sch", "hup",
-\* "act1" (cmd, args, env, working_dir, shell, max_age ...: nothing the model holds, but a reload afterwards),
+\* "mage" (max_age in ticks; a reload afterwards), "act1" (cmd, args, env, working_dir, shell ...: nothing the model
+\* holds, but a reload afterwards),
 \* "noop" (an option set_opt has no branch for)};  without the list: numprocesses = q.nb
 SetOpts(q) == IF q.opts # <<>> THEN q.opts ELSE <<[k |-> "np", v |-> q.nb]>>
 ApplyOpt(wr, o) ==
@@ -775,6 +789,7 @@ ApplyOpt(wr, o) ==
     [] o.k = "ssig" -> [wr EXCEPT !.ssig = o.v]
     [] o.k = "sch" -> [wr EXCEPT !.sch = (o.v = 1)]
     [] o.k = "hup" -> [wr EXCEPT !.hup = (o.v = 1)]
+    [] o.k = "mage" -> [wr EXCEPT !.mage = o.v]
     [] OTHER -> wr
 P_req(s, f) ==
   LET fr == s.fr[f] q == s.creq cid == fr.nm
@@ -852,7 +867,7 @@ P_req(s, f) ==
                          resp |-> TRUE, auto |-> TRUE, prio |-> 0, ssig |-> SIGTERM, sch |-> FALSE, hup |-> FALSE,
                          hooks |-> <<>>, retry |-> 5, ver |-> 1]
                   wr == [st |-> "stopped", rel |-> FALSE, np |-> q.addnp, pr |-> <<>>, sing |-> q.addsing, resp |-> TRUE, od |-> FALSE,
-                         G |-> q.addG, W |-> q.addW, ssig |-> SIGTERM, sch |-> FALSE, hup |-> FALSE]
+                         G |-> q.addG, W |-> q.addW, ssig |-> SIGTERM, sch |-> FALSE, hup |-> FALSE, mage |-> 0]
                   s1 == [s EXCEPT !.cfg.ws = Append(@, wc), !.ws = Append(@, wr), !.wl = Append(@, n),
                                   !.wn = Append(@, [k |-> q.lname, i |-> n])]
               IN Emit(Goto(SetA([s1 EXCEPT !.slot = "arbiter_add_watcher"], f, n), f, IF q.start THEN "d2" ELSE "d1"),
@@ -873,7 +888,7 @@ P_req(s, f) ==
               IF o.k = "np" /\ s.ws[i].sing /\ o.v > 1            \* ValueError, after the earlier options were applied (D7)
               THEN Reply(Goto([s EXCEPT !.slot = ""], f, "z"), cid, q.mid, "error", 5)
               ELSE Emit(Goto([SetL(s, f, Tail(fr.l)) EXCEPT !.slot = "watcher_set_opt", !.ws[i] = ApplyOpt(@, o),
-                                                           !.fr[f].b = IF o.k = "act1" THEN 1 ELSE fr.b], f, "xs"),
+                                                           !.fr[f].b = IF o.k \in {"act1", "mage"} THEN 1 ELSE fr.b], f, "xs"),
                         Line("ev", WL(s, i), 0, 0, "", "updated"))
     [] fr.pc = "x2" -> CallN([s EXCEPT !.slot = "watcher_do_action"], f, "x3", "op", i, 0, fr.b, 0, "do_action")
     [] fr.pc = "x3" ->
@@ -979,7 +994,7 @@ P_reloadcfg(s, f) ==
                     auto |-> r.auto, prio |-> r.prio, ssig |-> r.ssig, sch |-> r.sch, hup |-> r.hup, hooks |-> <<>>,
                     retry |-> r.retry, ver |-> r.ver]
              wr == [st |-> "stopped", rel |-> FALSE, np |-> r.np, pr |-> <<>>, sing |-> r.sing, resp |-> r.resp, od |-> FALSE,
-                    G |-> r.G, W |-> r.W, ssig |-> r.ssig, sch |-> r.sch, hup |-> r.hup] IN
+                    G |-> r.G, W |-> r.W, ssig |-> r.ssig, sch |-> r.sch, hup |-> r.hup, mage |-> 0] IN
          IF r.sing /\ r.np > 1 THEN Ret(s, f, 3)          \* Watcher(): ValueError
          ELSE Goto(SetA([s EXCEPT !.cfg.ws = Append(@, wc), !.ws = Append(@, wr)], f, nn), f, "a3")
     [] fr.pc = "a3" -> IF s.cfg.ws[fr.a].auto THEN Call(s, f, "a4", "_start", fr.a, 0, 0, 0) ELSE Goto(s, f, "a6")
@@ -1111,7 +1126,7 @@ MustSettle(s) == s.cur = <<>> /\ Dying(s) # {}
 Fork(s, p, ob) ==
   LET c == Len(s.k) + 1 IN
   WithObs(Emit([Fresh(s) EXCEPT !.k = Append(@, [st |-> "run", ws |-> -1, par |-> p, obeys |-> ob, dying |-> 0,
-                                                owner |-> 0, stp |-> FALSE, rc |-> FALSE, rcv |-> 0])],
+                                                owner |-> 0, stp |-> FALSE, rc |-> FALSE, rcv |-> 0, born |-> s.now])],
                Line("fork", "", c, p, "", "")))
 DueTimers(s) == { t \in s.tm : t.due <= s.now }
 \* a due timer fires (any of the due ones): its frame resumes
